@@ -493,6 +493,8 @@ def _scaled_to_seq(d, target):
 def construct(prog, raw, fd_margin=False, smax=None):
     """physical call from raw draws; returns None when the draws are degenerate (rejected)"""
     kind = prog["kind"]
+    if kind == "repo":
+        kind = {"creep": "implicit_norton", "plastic": "implicit_plasticity" if prog.get("implicit") else "iso_plasticity"}[prog["family"]]
     h = raw["hyp"]
     n = SSIZE[h]
     axis = PS_AXIS.get(h)
@@ -556,7 +558,11 @@ def construct(prog, raw, fd_margin=False, smax=None):
         if smax is not None:
             dpmax = min(dpmax, smax * s_ref / (3 * mu * m))
         # dp = dt*A*seq^m <= dt*A*s_ref^m = dpmax (the flow relaxes the stress)
-        mat["A"] = float("%.6g" % (dpmax / (call["dt"] * s_ref ** m)))
+        if "A" in b:
+            mat["A"] = b["A"]   # constant of a repository behaviour: the time increment sets the amount of flow
+            call["dt"] = float("%.6g" % min(max(dpmax / (b["A"] * s_ref ** m), 1e-8), 1e14))
+        else:
+            mat["A"] = float("%.6g" % (dpmax / (call["dt"] * s_ref ** m)))
         call["s_ref"] = s_ref
         call["stiffness_number"] = 3 * mu * m * dpmax / s_ref
         call["evp0"] = [0.0] * n
@@ -685,3 +691,41 @@ def get_p(out):
         if k in out["iv"]:
             return float(out["iv"][k][0])
     return None
+
+
+# ------------------------------------------------------------------ repository behaviours (C42)
+import os
+import re
+
+REPO_BEHAVIOURS = [
+    {"file": "mfront/tests/behaviours/ImplicitNorton.mfront", "name": "ImplicitNorton", "family": "creep", "implicit": True,
+     "hyps": HYPS_ALL, "baked": {"A": 8.e-67, "m": 8.2}, "theta": 0.5, "eps": 1e-16},
+    {"file": "mfront/tests/behaviours/ImplicitNorton_LevenbergMarquardt.mfront", "name": "ImplicitNorton_LevenbergMarquardt",
+     "family": "creep", "implicit": True, "hyps": HYPS_ALL, "baked": {"A": 8.e-67, "m": 8.2}, "theta": 0.5, "eps": 1e-11},
+    {"file": "mfront/tests/behaviours/Norton.mfront", "name": "Norton", "family": "creep", "hyps": HYPS_NOPS, "baked": {},
+     "theta": 0.5, "eps": 1e-8},
+    {"file": "mfront/tests/behaviours/Plasticity.mfront", "name": "Plasticity", "family": "plastic", "hyps": HYPS_NOPS,
+     "baked": {}, "theta": 1.0, "eps": 1e-8},
+    {"file": "mfront/tests/behaviours/StandardElasticity/IsotropicJ2Plasticity.mfront", "name": "IsotropicJ2Plasticity",
+     "family": "plastic", "implicit": True, "hyps": HYPS_ALL,
+     "baked": {"young": 150e9, "nu": 0.3, "H": 102e9, "s0": 102e6}, "theta": 1.0, "eps": 1e-14},
+    {"file": "mfront/tests/behaviours/StandardElastoViscoPlasticity/NortonTest.mfront", "name": "NortonTest", "family": "creep",
+     "implicit": True, "hyps": HYPS_ALL, "baked": {"young": 150e9, "nu": 0.3, "A": 100e6 ** -3.2, "m": 3.2}, "theta": 1.0,
+     "eps": 1e-16},
+    {"file": "mfront/tests/behaviours/StandardElastoViscoPlasticity/PlasticityTest.mfront", "name": "PlasticityTest",
+     "family": "plastic", "implicit": True, "hyps": HYPS_ALL,
+     "baked": {"young": 150e9, "nu": 0.3, "H": 0.0, "s0": 33e6}, "theta": 1.0, "eps": 1e-16},
+]
+
+
+def repo_program(repo, entry, hyps):
+    """a repository behaviour, unchanged but for the list of modelling hypotheses (compile time)"""
+    src = open(os.path.join(repo, entry["file"])).read()
+    sel = "@ModellingHypotheses {%s};" % ", ".join(hyps)
+    if re.search(r"@ModellingHypotheses\s*\{[^}]*\}\s*;", src):
+        src = re.sub(r"@ModellingHypotheses\s*\{[^}]*\}\s*;", sel, src, count=1)
+    else:
+        src = re.sub(r"(@Behaviour\s+\w+\s*;)", r"\1\n" + sel, src, count=1)
+    p = {k: v for k, v in entry.items() if k != "file"}
+    p.update({"kind": "repo", "hyps": list(hyps), "src": src, "origin": entry["file"]})
+    return p
